@@ -598,10 +598,15 @@ class Resolver:
                     isinstance(a.targets[0], ast.Name) and
                     a.targets[0].id == fn.id]
             # (or once per branch: `f = self.a` ... else: `f = self.b`)
+            def self_attr(v):
+                # self.a, or `self.a if cond else self.b`
+                if isinstance(v, ast.IfExp):
+                    return self_attr(v.body) and self_attr(v.orelse)
+                return isinstance(v, ast.Attribute) and \
+                    isinstance(v.value, ast.Name) and \
+                    v.value.id == ctx.func.self_name
             if stores and len(stores) == len(defs) and all(
-                    isinstance(d.value, ast.Attribute) and
-                    isinstance(d.value.value, ast.Name) and
-                    d.value.value.id == ctx.func.self_name for d in defs):
+                    self_attr(d.value) for d in defs):
                 recv_is_self = True
         for t in types:
             k = t[0]
